@@ -169,7 +169,8 @@ class C13(object):
     def gen_include(self, rng, g):
         base = G.render(g.gen(n=rng.randint(1, 6)).program())
         inc = G.render(g.gen(n=rng.randint(1, 4), labels=["I1", "I2"]).program_body_only())
-        variant = rng.choice(["ok", "missing", "missing_nested", "self", "cycle2", "cycle3", "cycle_after_prefix", "dir"])
+        variant = rng.choice(["ok", "missing", "missing_nested", "self", "cycle2", "cycle3", "cycle_after_prefix", "dir",
+                              "sibling_names", "dot_self"])
         files = {}
         pos = rng.randint(0, len(base))
         incline = lambda name: " INCLUDE %s\n" % name
@@ -193,6 +194,15 @@ class C13(object):
             files["a.asm"] = " NOP \n" + incline("b.asm")
             files["b.asm"] = incline("a.asm") + " NOP \n"
             lines = base[:pos] + [incline("a.asm")] + base[pos:]
+        elif variant == "sibling_names":
+            # files in a sub-directory naming each other without the directory: relative to the working directory these
+            # do not exist (a diagnostic); resolved next to the including file they would form a cycle
+            files["lib/io.asm"] = " NOP \n" + incline("defs.asm")
+            files["lib/defs.asm"] = incline("io.asm")
+            lines = base[:pos] + [incline("lib/io.asm")] + base[pos:]
+        elif variant == "dot_self":
+            files["util.asm"] = " NOP \n" + incline(rng.choice(["util.asm", "./util.asm"]))
+            lines = base[:pos] + [incline("./util.asm")] + base[pos:]
         else:
             files["p.asm"] = " CLRA \n" + incline("a.asm")
             files["a.asm"] = " NOP \n" + incline("b.asm")
@@ -230,7 +240,7 @@ class C13(object):
         res.stats["outcome:" + outcome] += 1
         res.stats["class:" + case["kind"]] += 1
         if case["kind"] == "include":
-            res.stats["fault:" + {"ok": "include_ok", "dir": "include_ok", "missing": "missing_include",
+            res.stats["fault:" + {"ok": "include_ok", "dir": "include_ok", "missing": "missing_include", "sibling_names": "missing_include",
                                   "missing_nested": "missing_include"}.get(case["note"], "include_cycle")] += 1
         if outcome == "HANG":
             res.violate("HANG", "assembly did not finish within 8x the step budget (%s); %d line events" % (a["detail"], a["steps"]))
